@@ -1,6 +1,7 @@
 import FinamModel.Connect
 import FinamModel.Translated.connect_status
 import FinamModel.Translated.connect_flags
+import FinamModel.Translated.ConnectHelper__push_data
 /-
   The status a `ConnectHelper.connect` call reports and what `Composition._connect_components` makes of it — both
   translated (as slices) from `finam/tools/connect_helper.py` and `finam/schedule.py` on every run.  C06: "a component
@@ -80,5 +81,33 @@ theorem tr_connect_flags (st : Status) (hs : st ≠ .initialized) (anew aun : Bo
     Tr.connect_flags (statusCode st) anew aun =
       .ok (anew || (st != .idle), aun || (st != .connected)) := by
   cases st <;> simp [Tr.connect_flags, Tr.connect_flags.join1, Tr.connect_flags.join2, statusCode] at hs ⊢
+
+/-- **`ConnectHelper._push_data`** — how the initial data of an output reach it: a static output gets one publication
+    without a time; otherwise the data are published for the composition's start time *and* for the time of the output's
+    metadata when the two differ (so that both the driver's initial pull at the start time and consumers that ask for the
+    metadata time are served), once for the metadata time when they agree; the output is marked as served -/
+theorem tr_ConnectHelper__push_data (pushed : List (Nat × Bool)) (trace : List (Option Int)) (name : Nat)
+    (time infoTime : Option Int) (static : Bool) :
+    Tr.ConnectHelper__push_data pushed trace name time infoTime static =
+      .ok (Py.dictSet pushed name true,
+           trace ++ (if static then [none] else if infoTime ≠ time then [time, infoTime] else [infoTime])) := by
+  unfold Tr.ConnectHelper__push_data Tr.ConnectHelper__push_data.join1
+  cases static
+  · by_cases h : infoTime = time <;> simp [h, Py.recordPush, bind, Except.bind, pure, Except.pure]
+  · simp [Py.recordPush, bind, Except.bind, pure, Except.pure]
+
+/-- **initial data are available at the start time, on the code**: whatever the metadata time of a non-static output
+    is, its initial data are published for the composition's start time (the time of the driver's initial pulls) -/
+theorem code_initial_data_at_start (pushed : List (Nat × Bool)) (name : Nat) (start infoTime : Option Int) :
+    ∃ p tr, Tr.ConnectHelper__push_data pushed [] name start infoTime false = .ok (p, tr) ∧ start ∈ tr ∧ infoTime ∈ tr ∧
+      Py.dictGet? p name = some true := by
+  refine ⟨_, _, tr_ConnectHelper__push_data pushed [] name start infoTime false, ?_, ?_, ?_⟩
+  · by_cases h : infoTime = start <;> simp [h]
+  · by_cases h : infoTime = start <;> simp [h]
+  · induction pushed with
+    | nil => simp [Py.dictSet, Py.dictGet?]
+    | cons q pushed ih =>
+      obtain ⟨k, v⟩ := q
+      by_cases hk : k = name <;> simp [Py.dictSet, Py.dictGet?, hk, ih]
 
 end Finam.Props.C06
